@@ -237,6 +237,54 @@ func runC02(c *rt.Ctx) {
 		})
 	}
 	roman.DefaultFormat = old
+
+	// configuration: the package-level Formatter replaced by one that fails (for every number, or only
+	// above 3999). String and the verbs are documented to fall back to DefaultFormatter, so they must
+	// still give the canonical numeral for their own flags; MarshalText must report the error.
+	oldF := roman.Formatter
+	for mode := 0; mode < 2; mode++ {
+		mode := mode
+		roman.Formatter = func(buf []byte, n roman.Number, f roman.Format) ([]byte, error) {
+			if mode == 0 || n > 3999 {
+				return nil, errors.New("formatter refuses")
+			}
+			return roman.DefaultFormatter(buf, n, f)
+		}
+		for _, df := range []roman.Format{0, roman.FormatLong, roman.FormatLowerCase, roman.FormatLong4 | roman.FormatLowerCase} {
+			roman.DefaultFormat = df
+			c.Parallel("failing-formatter", 0, func(w *rt.W) {
+				for i, n := range []uint64{0, 4, 9, 14, 49, 444, 999, 1994, 3999, 4000, 4004, 4999, 12494} {
+					if i%w.NShards != w.Shard {
+						continue
+					}
+					num := roman.Number(n)
+					fail := func(path, got, want string) {
+						w.Fail("failing-formatter-fallback", "verbs", rt.Args("n", n, "default_format", int(df), "path", path, "formatter", "fails"), got, want, path+" must fall back to DefaultFormatter with its own flags when the configured Formatter fails")
+					}
+					long := roman.FormatLong
+					for _, vb := range []struct {
+						verb string
+						f    roman.Format
+					}{{"%R", 0}, {"%r", roman.FormatLowerCase}, {"%L", long}, {"%l", long | roman.FormatLowerCase}, {"%s", df}, {"%v", df}} {
+						want := ref.RomanFormat(n, refRomanFlags(vb.f))
+						if s := fmt.Sprintf(vb.verb, num); s != want {
+							fail("Sprintf "+vb.verb, s, want)
+						}
+					}
+					if s, want := num.String(), ref.RomanFormat(n, refRomanFlags(df)); s != want {
+						fail("String", s, want)
+					}
+					if b, err := num.MarshalText(); (mode == 0 || n > 3999) && n != 0 && err == nil {
+						fail("MarshalText", string(b), "an error")
+					}
+					w.Eval(8)
+					w.ClassN("failing-formatter", 1)
+				}
+			})
+		}
+	}
+	roman.Formatter, roman.DefaultFormat = oldF, old
+	c.Require("failing-formatter", 50)
 	c.Require("digit-4-or-9", 1000)
 	c.Require("numeral-may-exceed-limit", 1)
 	c.Require("verbs-under-default-format", 128)
